@@ -1,6 +1,8 @@
 package main
 
 import (
+	"github.com/spf13/afero"
+	"sort"
 	"bytes"
 	"encoding/json"
 	"fmt"
@@ -40,6 +42,20 @@ type openScenario struct {
 	L     int64
 	Index string // absent | current | stale
 	Stale int64  // for stale: the index reflects only the first Stale bytes
+	Pad   int    // zero blocks behind the prefix (preallocated / extended images, blocking-factor padding)
+	Junk  int    // blocks of non-tar bytes behind the prefix (and behind the zero blocks)
+}
+
+// bytesOf returns the drive content of a scenario.
+func (sc openScenario) bytesOf(img []byte, seed uint64) []byte {
+	out := append([]byte(nil), img[:sc.L]...)
+	if sc.Pad > 0 {
+		out = append(out, make([]byte, sc.Pad*512)...)
+	}
+	if sc.Junk > 0 {
+		out = append(out, genContent(sc.Junk*512, "random", seed^uint64(sc.Junk))...)
+	}
+	return out
 }
 
 // scratchState rebuilds an index for tape[:L] in a fresh directory and returns (tree, hasRoot, indexErr).
@@ -102,6 +118,25 @@ func openRun(prop, tier string, c Case, w *Worker) (res Result) {
 			res.Verdict, res.Msg = "inconclusive", "tape length not aligned"
 			return
 		}
+		// tails: zero blocks over several orders of magnitude (a 5000-block tail = a 2.5 MiB preallocated image) and junk,
+		// behind the intact tape, behind the tape without its end-of-archive marker and behind one earlier record boundary
+		ends := []int64{n}
+		if n-1024 >= last.ContentOff+last.ContentLen {
+			ends = append(ends, n-1024)
+		}
+		if len(t.recs) > 2 {
+			ends = append(ends, t.recs[len(t.recs)/2].Off)
+		}
+		for ei, L := range ends {
+			pads := []int{1, 2, 3, 7, 64, 5000}
+			if ei > 0 {
+				pads = []int{3, 5000}
+			}
+			for _, pad := range pads {
+				scen = append(scen, openScenario{L: L, Index: "absent", Pad: pad}, openScenario{L: L, Index: "current", Pad: pad})
+			}
+			scen = append(scen, openScenario{L: L, Index: "absent", Junk: 1}, openScenario{L: L, Index: "current", Pad: 2, Junk: 5})
+		}
 	case "cut-inside-content":
 		// the last record with content, cut in the middle of its content (aligned)
 		for i := len(t.recs) - 1; i >= 0; i-- {
@@ -129,8 +164,12 @@ func openRun(prop, tier string, c Case, w *Worker) (res Result) {
 	res.Detail = map[string]any{"cfg": cfg, "ops": t.ops, "tape_len": n}
 	checked := 0
 	for _, sc := range scen {
-		before := t.img[:sc.L]
+		before := sc.bytesOf(t.img, c.Seed)
 		desc := fmt.Sprintf("tape cut at %d of %d, index %s", sc.L, n, sc.Index)
+		if sc.Pad > 0 || sc.Junk > 0 {
+			desc += fmt.Sprintf(", followed by %d zero blocks and %d junk blocks", sc.Pad, sc.Junk)
+			res.count("scenarios_with_tail", 1)
+		}
 		viol := func(sig, format string, a ...any) {
 			res.violate("c16|"+kind+"|"+sig, fmt.Sprintf("[%s] %s: ", cfg, desc)+fmt.Sprintf(format, a...))
 			res.Detail.(map[string]any)["scenario"] = sc
@@ -231,6 +270,38 @@ func openRun(prop, tier string, c Case, w *Worker) (res Result) {
 				viol("later-readback", "the file written after opening reads back err=%v, %d bytes (sum %s), wrote %d (sum %s)", err, len(got), sum(got), len(data), sum(data))
 				return false
 			}
+			if err := rig.FS.Mkdir("/c16-new-dir", 0o750); err != nil {
+				viol("later-mkdir", "Mkdir after opening: %v", err)
+				return false
+			}
+			if st, err := rig.FS.Stat("/c16-new-dir"); err != nil || !st.IsDir() {
+				viol("later-mkdir-stat", "the directory made after opening: Stat err=%v", err)
+				return false
+			}
+			// rewrite an older file, if there is one
+			rewritten := ""
+			var olds []string
+			for k, v := range lt {
+				if v.Kind == "f" && !hasCodecSuffix(k) {
+					olds = append(olds, k)
+				}
+			}
+			sort.Strings(olds)
+			if len(olds) > 0 {
+				rewritten = olds[int(sc.L/512)%len(olds)]
+				nd := genContent(333, "text", uint64(sc.L)+c.Seed+1)
+				if err := afero.WriteFile(rig.FS, rewritten, nd, 0o644); err != nil {
+					viol("later-rewrite", "rewriting %q after opening: %v", rewritten, err)
+					return false
+				}
+				got, err := ReadAllFile(rig.FS, rewritten)
+				rig.LocksSettled()
+				if err != nil || !bytes.Equal(got, nd) {
+					viol("later-rewrite-readback", "%q rewritten after opening reads back err=%v, %d bytes (sum %s), wrote %d (sum %s)", rewritten, err, len(got), sum(got), len(nd), sum(nd))
+					return false
+				}
+				res.count("later_rewrites", 1)
+			}
 			lt2, err := WalkTree(rig.FS, true)
 			rig.LocksSettled()
 			if err != nil {
@@ -238,6 +309,19 @@ func openRun(prop, tier string, c Case, w *Worker) (res Result) {
 				return false
 			}
 			for k, v := range lt {
+				if k == rewritten {
+					continue
+				}
+				if k == "/" {
+					// the root's own times may move when children are added
+					a, b := v, lt2[k]
+					a.Mtime, b.Mtime, a.Atime, b.Atime = 0, 0, 0, 0
+					if a != b {
+						viol("later-write-disturbed", "writing new entries changed %q: %+v -> %+v", k, v, lt2[k])
+						return false
+					}
+					continue
+				}
 				if lt2[k] != v {
 					viol("later-write-disturbed", "writing a new file changed %q: %+v -> %+v", k, v, lt2[k])
 					return false
@@ -284,6 +368,6 @@ func openRun(prop, tier string, c Case, w *Worker) (res Result) {
 func init() {
 	register(&Engine{Name: "opens", Props: []string{"C16"}, Cases: openCases, Run: openRun})
 	propMeta["C16"] = PropMeta{Level: "fault_enumeration",
-		Rule:        "per case a tape is produced by a generated history; for EVERY block-aligned prefix length (0, 512, ..., len) whose from-scratch rebuild succeeds and finds a root, combined with the index absent and with the index current for that prefix: construct + Initialize; the drive file must keep its bytes as a prefix and must not grow; on success the walked tree must equal the tree of a from-scratch recovery.Index of the same bytes; a file then written through the instance must read back byte-exactly, must not disturb older entries and must be present with the same content after another from-scratch rebuild; prefixes that cut inside a record's content or header, unaligned prefixes and stale indexes are the shapes of three open findings and are visited by their witness cases only; non-trivial = at least 6 scenarios checked on a tape of at least 4 records; distinct = distinct tape",
+		Rule:        "per case a tape is produced by a generated history; for EVERY block-aligned prefix length (0, 512, ..., len) whose from-scratch rebuild succeeds and finds a root, combined with the index absent and with the index current for that prefix, plus tails behind the intact tape / the tape without end-of-archive marker / an earlier record boundary (1, 2, 3, 7, 64 and 5000 zero blocks; junk blocks; zero then junk): construct + Initialize; the drive file must keep its bytes as a prefix and must not grow; on success the walked tree must equal the tree of a from-scratch recovery.Index of the same bytes; a file then written through the instance, a directory made and an older file rewritten must read back byte-exactly, must not disturb older entries and must be present with the same content after another from-scratch rebuild; prefixes that cut inside a record's content or header, unaligned prefixes and stale indexes are the shapes of three open findings and are visited by their witness cases only; non-trivial = at least 6 scenarios checked on a tape of at least 4 records; distinct = distinct tape",
 		Assumptions: []string{"'current' index = the index a from-scratch rebuild of that prefix produces"}}
 }
